@@ -1,5 +1,5 @@
-\* C04 quick: 2 nodes, 1 instance id, clock 0..3, retention 2 s, 3 CAS (heartbeat / state change /
-\* removal on any node), every packet ever gossiped deliverable forever.
+\* C04 quick: 2 nodes, 1 entry id, clock 0..3, retention 2 s, 3 CAS (heartbeat / state change / removal
+\* on any node), every packet ever gossiped deliverable forever.
 CONSTANTS
   N = 2
   NI = 1
@@ -15,6 +15,11 @@ CONSTANTS
   AllowGarbage = FALSE
   AllowPartition = FALSE
   AllowJunkPP = FALSE
+  GateNodes = {}
+  InboxCap = 1
+  VersionTest = TRUE
+  MaxDel = 0
+  ObsoleteTimeout = 1
   ConsumeNet = FALSE
   Ideal = TRUE
   Ghost = TRUE
@@ -24,6 +29,6 @@ CONSTANTS
   QRounds = 2
 SPECIFICATION Spec
 VIEW view
-INVARIANTS TypeOK TombstonesInvisible InvalidationSafe NoInventedContent SentIsWritten WatcherNeverStale VersionCountsChanges
-PROPERTIES TombstonesForwarded NoResurrection GCOnlyExpired NoExpiredTombstoneStored OnlyChangesForwarded
+INVARIANTS TypeOK TombstonesInvisible InvalidationSafe NoInventedContent SentIsWritten WatcherNeverStale PrefixWatcherNeverStale VersionCountsChanges
+PROPERTIES TombstonesForwarded NoResurrection GCOnlyExpired NoExpiredTombstoneStored OnlyChangesForwarded DeletedStaysDeleted RemovedOnlyWhenObsolete DeletedNotRevived
 CHECK_DEADLOCK FALSE
